@@ -247,9 +247,8 @@ class Spec:
             ok = not (isinstance(e[1], list) and e[1] and e[1][0] == "exn")
             c = m["cmd"]
             if c == "checkpoint":
-                # property text: the non-resumable window opened by clear_checkpoint ends at the next checkpoint.
-                # (The engine keeps it open until the call ends -- it then never pauses/resumes there, so no
-                # replay obligation arises from this line on the current code; see manifest_parts/C10.json.)
+                # the non-resumable window opened by clear_checkpoint ends at the next EXPLICIT checkpoint
+                # (implicit checkpoints below do not end it); the engine does the same since fixes/C09-a.diff
                 if not (isinstance(e[1], list) and e[1][:2] == ["exn", "IllegalMessageSequence"]):
                     self.cache = []
             elif c == "clear_checkpoint":
